@@ -649,8 +649,16 @@ pub fn apply_coercion(
 
 /// Replace all occurrences of pattern with replacement (case-insensitive)
 fn replace_case_insensitive(text: &str, pattern: &str, replacement: &str) -> String {
-    let text_lower = text.to_lowercase();
-    let pattern_lower = pattern.to_lowercase();
+    // An empty pattern matches everywhere without consuming anything: nothing to replace
+    if pattern.is_empty() {
+        return text.to_string();
+    }
+
+    // ASCII case folding keeps byte offsets identical between the folded copy and the original
+    // (Unicode to_lowercase can change lengths, e.g. 'İ', and the offsets found in the folded
+    // copy would then slice the original at the wrong place or inside a character)
+    let text_lower = text.to_ascii_lowercase();
+    let pattern_lower = pattern.to_ascii_lowercase();
 
     let mut result = String::new();
     let mut last_end = 0;
